@@ -478,7 +478,16 @@ func (p *queryPlan) addSpecifiedData(ctx context.Context, r table.Row, cls *sema
 	}
 
 	p.tbl.AddBindings(tbl.Bindings())
-	if tbl.NumRows() == 0 && cls.Optional {
+	// Only the fetched rows that agree with the current row on the bindings they
+	// share are solutions; the specialization above narrows the fetch but does not
+	// enforce every shared binding (aliases, values of another kind).
+	var matching []table.Row
+	for _, nr := range tbl.Rows() {
+		if compatibleRows(r, nr) {
+			matching = append(matching, nr)
+		}
+	}
+	if len(matching) == 0 && cls.Optional {
 		nr := make(table.Row)
 		for _, k := range tbl.Bindings() {
 			if _, ok := r[k]; !ok {
@@ -488,10 +497,44 @@ func (p *queryPlan) addSpecifiedData(ctx context.Context, r table.Row, cls *sema
 		p.tbl.AddRow(table.MergeRows([]table.Row{r, nr}))
 		return nil
 	}
-	for _, nr := range tbl.Rows() {
+	for _, nr := range matching {
 		p.tbl.AddRow(table.MergeRows([]table.Row{r, nr}))
 	}
 	return nil
+}
+
+// sameCell returns true if both cells hold the same value: the same kind and
+// equal components, time anchors being compared as instants.
+func sameCell(a, b *table.Cell) bool {
+	switch {
+	case a == nil || b == nil:
+		return a == b
+	case a.T != nil && b.T != nil:
+		return a.T.Equal(*b.T)
+	case a.P != nil && b.P != nil:
+		if a.P.ID() != b.P.ID() || a.P.Type() != b.P.Type() {
+			return false
+		}
+		if a.P.Type() == predicate.Immutable {
+			return true
+		}
+		ta, _ := a.P.TimeAnchor()
+		tb, _ := b.P.TimeAnchor()
+		return ta.Equal(*tb)
+	default:
+		return reflect.DeepEqual(a, b)
+	}
+}
+
+// compatibleRows returns true if both rows hold the same value for every
+// binding they share.
+func compatibleRows(r, nr table.Row) bool {
+	for k, v := range nr {
+		if ov, ok := r[k]; ok && !sameCell(ov, v) {
+			return false
+		}
+	}
+	return true
 }
 
 // specifyClauseWithTable runs the clause, but it specifies it further based on
